@@ -29,6 +29,8 @@ FORMATS = [None, None, "%Y%m%dT%H%M%S%.3f%z", "%Y-%m-%d %H:%M:%S%.6f %:z", "%F %
            "%H:%M:%S %% lit-text %d/%m/%Y", "%Y%m%d%H%M%S", "%z|%:z|%s", "[%F_%T.%3f]"]
 PSEPS = [":", ":", ":", " | ", "", "@@", "\t", "%%"]
 SEPS = ["", "", "", "|", "\\n", "--\\n", "\\t\\0\\\\", "\\a\\b\\f\\r\\v", "<sep>"]
+MB_SEPS = ["\u2192", "\u00b6\\n", "\u2014 \u2014", "\U0001F600", "\\t\u2192\\0", "\u00e9|\u00fc", "\\n\u2192\u2192\\n", "\u65e5\u672c", "<\u00b6\\\\>"]
+LONG_SIZES = [2057, 4000, 70000, 2056, 2058, 4112, 6168, 2055, 70001]
 FINE_FORMATS = ["%Y%m%dT%H%M%S%.6f%z", "%F %T%.9f %:z", "%H:%M:%S.%6f", "%T.%9f", "%s.%f", "%s%f", "%Y-%m-%d %H:%M:%S%.6f",
                 "%d/%m %H:%M:%S%.9f|%3f|%6f|%9f|%f", "%.3f %.6f %.9f"]
 FINE_ZONES = [("-u", 0, None), ("-u", 0, None), ("-z", 19800, "+05:30"), ("-z", -34200, "-09:30"), ("-z", -12600, "-03:30"),
@@ -104,7 +106,17 @@ def py_strftime(fmt, t_ns, off_s):
 WORDS = ["alpha", "beta", "gamma", "kernel:", "sshd[x]:", "événement", "日志", "ok", "fail", "user=root", "<tab>\t<", "a=b;c", "-- mark --"]
 
 
-def gen_text_file(rng, base_us, nmsg, off_min, final_nl, long_lines, frac=6, dense=False):
+def _stretch(line, size):
+    """line (str, without newline) padded with words to exactly size-1 characters (size counts the newline);
+    all filler is ASCII, so characters = bytes when the line itself is ASCII"""
+    need = size - 1 - len(line.encode())
+    if need <= 0:
+        return line
+    fill = (" " + " ".join(["alpha", "beta", "gamma", "kernel:", "ok", "fail", "user=root"])) * (need // 40 + 2)
+    return line + fill[:need]
+
+
+def gen_text_file(rng, base_us, nmsg, off_min, final_nl, long_lines, frac=6, dense=False, longs=None):
     """returns (bytes, [message dict])  -- one notation per file: ISO-8601 with `frac` (6..9) fractional
     digits and a numeric zone.  Instants are in ns.
     dense: consecutive messages differ only below the millisecond (same second and millisecond, different
@@ -130,6 +142,13 @@ def gen_text_file(rng, base_us, nmsg, off_min, final_nl, long_lines, frac=6, den
         lines = [first]
         for _ in range(rng.choice([0, 0, 0, 1, 2, 3])):
             lines.append(rng.choice(["  ", "\t", "| ", ""]) + " ".join(rng.choice(WORDS) for _ in range(rng.randrange(0, 5))))
+        if longs and ("first", k) in longs:
+            lines[0] = _stretch(lines[0], longs[("first", k)])
+        if longs and ("later", k) in longs:
+            if len(lines) == 1:
+                lines.append("  cont")
+            j = rng.randrange(1, len(lines))
+            lines[j] = _stretch(lines[j], longs[("later", k)])
         bl = [(l + "\n").encode() for l in lines]
         if k == nmsg - 1 and not final_nl:
             bl[-1] = bl[-1][:-1]
@@ -230,6 +249,19 @@ def gen_scenario(rng, idx, scratch, tier_fixture_rate=0.3):
         colour = (idx // 4) % 2 == 0
     psep = rng.choice(PSEPS)
     sep = rng.choice(SEPS)
+    # class "multi-byte separator": every 4th scenario (idx % 4 == 1)
+    mbsep = (idx % 4 == 1)
+    if mbsep:
+        sep = MB_SEPS[(idx // 4) % len(MB_SEPS)]
+    # class "lines longer than the 2056-byte print buffer": every 4th scenario (idx % 4 == 2); a block size that
+    # holds the whole file is used because the block-zero acceptance gate (C12, F3b) rejects files whose first
+    # block does not contain enough whole messages
+    longcls = (idx % 4 == 2)
+    if longcls:
+        bs = 0x80000
+        colour = (idx // 4) % 2 == 0
+        if not colour and fmode is None and zone is None and fmt is None:
+            fmode = "-n"
     if colour and "\\e" in sep:
         sep = "|"
     srcs = []
@@ -237,9 +269,19 @@ def gen_scenario(rng, idx, scratch, tier_fixture_rate=0.3):
     for i, nm in enumerate(names):
         off_min = rng.choice([0, 0, 60, -60, 330, -210, 765, -480, 345])
         dense = subms and (i == 0 or rng.random() < 0.5)
-        data, msgs = gen_text_file(rng, base + rng.randrange(0, 50_000_000), rng.randrange(3, 8) if dense else rng.randrange(2, 6),
-                                   off_min, rng.random() < 0.7, bs is not None and rng.random() < 0.5,
-                                   frac=rng.choice([6, 6, 7, 8, 9, 9]) if (subms or rng.random() < 0.3) else 6, dense=dense)
+        longs = None
+        nm_ = rng.randrange(3, 8) if dense else rng.randrange(2, 6)
+        if longcls and i == 0:
+            q = idx // 4
+            nm_ = max(nm_, 3)
+            ka, kb = rng.randrange(0, nm_), rng.randrange(0, nm_)
+            longs = {("first", ka): LONG_SIZES[q % len(LONG_SIZES)], ("later", kb): LONG_SIZES[(q + 1) % len(LONG_SIZES)]}
+            if rng.random() < 0.5:
+                longs[("first", rng.randrange(0, nm_))] = LONG_SIZES[(q + 2) % len(LONG_SIZES)]
+        data, msgs = gen_text_file(rng, base + rng.randrange(0, 50_000_000), nm_,
+                                   off_min, rng.random() < 0.7, bs is not None and not longcls and rng.random() < 0.5,
+                                   frac=rng.choice([6, 6, 7, 8, 9, 9]) if (subms or rng.random() < 0.3) else 6, dense=dense,
+                                   longs=longs)
         p = os.path.join(d, nm)
         with open(p, "wb") as f:
             f.write(data)
@@ -260,7 +302,7 @@ def gen_scenario(rng, idx, scratch, tier_fixture_rate=0.3):
     if rng.random() < 0.25:
         window = "pending"
     return dict(idx=idx, dir=d, srcs=srcs, bs=bs, colour=colour, fmode=fmode, align=align, zone=zone, fmt=fmt,
-                psep=psep, sep=sep, window=window, fixture=fx, subms=subms)
+                psep=psep, sep=sep, window=window, fixture=fx, subms=subms, mbsep=mbsep, longcls=longcls)
 
 
 def scenario_env(sc):
